@@ -534,7 +534,8 @@ class C18(Prop):
                 "NV.C18.file_roundtrip", "NV.C18.file_roundtrip_ids", "NV.C18.file_roundtrip_partial",
                 "NV.C18.fresh_idsOf", "NV.C18.trace_order",
                 "NV.C18.runEms_li", "NV.C18.translateAbs_at", "NV.C18.widths_agree",
-                "NV.C18.pass1Continues_iff", "NV.C18.scanContinues_iff", "NV.C18.split_agrees"]
+                "NV.C18.pass1Continues_iff", "NV.C18.scanContinues_iff", "NV.C18.split_agrees",
+                "NV.C18.apply_paths_store_table_index", "NV.C18.apply_frame_named"]
     witness_theorems = ["NV.C18.file_roundtrip_Full_false", "NV.C18.line_roundtrip_Full_false",
                         "NV.C18.reinclude_wrong", "NV.C18.reinclude_repaired", "NV.C18.wide_wrong", "NV.C18.signed_short_wrong",
                         "NV.C18.init_block_only_noted", "NV.C18.init_replay"]
@@ -619,7 +620,22 @@ class C18(Prop):
         m3 = re.search(r"sz\s*-=\s*(\d+)\s*;", sb)
         if not (m and m2 and m3):
             raise X.TieBroken("switch_to_line:split", "the run split loop no longer has the shape while (sz OP N) { *p++ = N; ... sz -= N; }")
+        ap = open(os.path.join(E.REPO, "src/apply.c")).read()
+        ab = self._body(ap, "\nint apply_low (", "apply_low")
+        stores = [(m.start(), m.group(1).strip()) for m in re.finditer(r"csp->fr\.table_index\s*=\s*([^;]+);", ab)]
+        cut = ab.find("APPLY_CACHE miss")
+        if len(stores) != 2 or cut < 0 or not (stores[0][0] < cut < stores[1][0]):
+            raise X.TieBroken("apply_low:table_index", "apply_low no longer stores fr.table_index once on the cache-hit and once on the cache-miss path")
+        IDX = {"entry->index": "ei", "index": "ei", "funp->runtime_index": "ri", "entry->progp->function_table[entry->index].runtime_index": "ri"}
+        for _, e in stores:
+            if e not in IDX:
+                raise X.TieBroken("apply_low:table_index", "unknown expression stored into fr.table_index: %s" % e)
         out = []
+        out.append("/-- C (src/apply.c apply_low, cache HIT): `csp->fr.table_index = %s;` — `ei` = function-table index kept in the\n"
+                   "    cache entry, `ri` = the function's runtime index -/" % stores[0][1])
+        out.append("def hitIndex (ei ri : Nat) : Nat := %s" % IDX[stores[0][1]])
+        out.append("/-- C (src/apply.c apply_low, cache MISS): `csp->fr.table_index = %s;` -/" % stores[1][1])
+        out.append("def missIndex (ei ri : Nat) : Nat := %s" % IDX[stores[1][1]])
         out.append("/-- C (lib/lpc/program.c, first pass of translate_absolute_line): `%s` — does the scan go on to the next\n"
                    "    segment when `a` lines are left and the segment has `b` lines? -/" % c1)
         out.append("def pass1Continues (a : Int) (b : Int) : Bool := decide (%s)" % g1)
@@ -741,6 +757,10 @@ class C18(Prop):
         for i, (name, kw) in enumerate(LL):
             kw.setdefault("binary", False)
             gen("lastline-" + name, fail_kind=("div", "error", "index", "funlit")[i % 4], **kw)
+        # the scenario run 2 and 3 times in one driver (frames through the apply-cache HIT path) and started by the driver
+        for i, (via, rep) in enumerate((("apply", 2), ("apply", 3), ("reset", 2), ("hb", 2), ("callout", 2), ("clone", 2), ("clone", 3))):
+            gen("again-%s-%d" % (via, rep), fail_kind=("div", "error", "funlit")[i % 3], depth=i % 3, nchild=3, nbase=i % 2 * 2,
+                bdepth=1, binary=(i % 2 == 0), via=via, rep=rep, other=(i == 1), override=(i == 3))
         # inherited programs reached through `::` and through call_other, fresh and from the saved binaries
         for i, k in enumerate(("div", "funlit2", "error")):
             gen("override-%d" % i, fail_kind=k, depth=i, bdepth=1, nchild=2, nbase=2, binary=(i != 1), override=True)
